@@ -26,7 +26,7 @@ func init() {
 		Families: []Family{
 			witnessFamily("C03"),
 			{Name: "grid", N: func(string) int { return len(c03Grid()) }, Run: c03GridRun},
-			{Name: "rand", N: tierN(120000, 1500000), Run: c03Random},
+			{Name: "rand", N: tierN(120000, 6000000), Run: c03Random},
 		},
 	})
 }
